@@ -439,6 +439,41 @@ example : keptTrios ["A", "B", "C"] [⟨"C", some "A", some "B"⟩, ⟨"D", some
     [⟨"A", "B", "C"⟩] := by rfl
 
 
+/-- **readlist_one_row_per_read**: `ReadList.write` emits exactly one row per read handed to the solver, in solver
+order, provided — as the run guarantees — the partition has one entry per read (`assert len(readset) == len(bipartition)`),
+no read is empty and the first position of every read has a component (`overall_components` covers all accessible positions). -/
+theorem readlist_one_row_per_read (i : Inst) (hlen : i.partition.length = i.reads.length)
+    (hpos : ∀ r ∈ i.reads, ∃ f c, r.positions.head? = some f ∧ alookup i.comps f = some c) :
+    (readListRows i).map (·.name) = i.reads.map (·.name) ∧ (readListRows i).length = i.reads.length := by
+  have key : ∀ (rs : List Read) (ps : List Nat), ps.length = rs.length →
+      (∀ r ∈ rs, ∃ f c, r.positions.head? = some f ∧ alookup i.comps f = some c) →
+      ((rs.zip ps).filterMap (fun rh => readRow i.comps rh.1 rh.2)).map (·.name) = rs.map (·.name) := by
+    intro rs
+    induction rs with
+    | nil => intro ps _ _; rfl
+    | cons r t ih =>
+      intro ps hl hp
+      cases ps with
+      | nil => simp at hl
+      | cons p ps' =>
+        obtain ⟨f, c, hf, hc⟩ := hp r (List.mem_cons_self ..)
+        have hne : r.positions ≠ [] := by intro e; rw [e] at hf; cases hf
+        obtain ⟨l, hlast⟩ : ∃ l, r.positions.getLast? = some l := by
+          cases hr : r.positions.getLast? with
+          | none => exact absurd (List.getLast?_eq_none_iff.mp hr) hne
+          | some l => exact ⟨l, rfl⟩
+        have hrow : readRow i.comps r p = some ⟨r.name, r.sourceId, r.sample, c + 1, p, r.positions.length, f + 1, l + 1⟩ := by
+          simp [readRow, hf, hlast, hc]
+        simp only [List.zip_cons_cons, List.filterMap_cons, hrow, List.map_cons]
+        rw [ih ps' (by simpa using hl) (fun r' hr' => hp r' (List.mem_cons_of_mem _ hr'))]
+  have h1 := key i.reads i.partition hlen hpos
+  refine ⟨h1, ?_⟩
+  have := congrArg List.length h1
+  simpa [readListRows] using this
+
+example : exInst.partition.length = exInst.reads.length := by decide
+
+
 /-! ### non-vacuity / witnesses of the file-level theorems -/
 
 def exFam : FamRun := ⟨exInst, ["child", "mother", "father"]⟩
